@@ -45,7 +45,7 @@ type Result struct {
 	Counters     map[string]int64 `json:"counters,omitempty"`
 	Rule         string           `json:"rule,omitempty"`
 	Infra        string           `json:"infra_error,omitempty"`
-	nontrivialOf map[string]bool
+	nontrivialOf map[[16]byte]struct{}
 	vioByKey     map[string]*Violation
 }
 
@@ -89,7 +89,7 @@ func (e *Env) Expired() bool { return !e.deadline.IsZero() && time.Now().After(e
 func NewResult(property, part string) *Result {
 	return &Result{
 		Property: property, Part: part, Outcomes: map[string]int64{}, Exhaustive: true,
-		Bounds: map[string]any{}, Counters: map[string]int64{}, nontrivialOf: map[string]bool{}, vioByKey: map[string]*Violation{},
+		Bounds: map[string]any{}, Counters: map[string]int64{}, nontrivialOf: map[[16]byte]struct{}{}, vioByKey: map[string]*Violation{},
 	}
 }
 
@@ -104,12 +104,22 @@ func (r *Result) Outcome(k string) {
 
 // NontrivialCase records a case that is non-trivial by the check's stated rule; distinct by key.
 func (r *Result) NontrivialCase(key string) {
+	h := Key128(key) // the set only counts distinct cases: 128 bits of a hash stand for the key
 	r.mu.Lock()
-	if !r.nontrivialOf[key] {
-		r.nontrivialOf[key] = true
+	if _, ok := r.nontrivialOf[h]; !ok {
+		r.nontrivialOf[h] = struct{}{}
 		r.Nontrivial++
 	}
 	r.mu.Unlock()
+}
+
+// Key128 is a 128-bit digest of a canonical state or case description, for visited sets that would
+// otherwise keep millions of long strings alive.
+func Key128(s string) [16]byte {
+	sum := sha256.Sum256([]byte(s))
+	var k [16]byte
+	copy(k[:], sum[:16])
+	return k
 }
 
 func (r *Result) Count(name string, n int64) {
